@@ -166,22 +166,6 @@ theorem recvFailed_run (c : Cfg) (hw : WF c) (s : St) (sched : List Label) (hth 
       obtain ⟨t, k, rfl⟩ := hth l (List.mem_cons_self ..)
       exact ih s' hls (recvFailed_tstep c hw s s' t k h hf)
 
-/-- a receiver whose read has failed is not waiting for ring space: no F3 wedge -/
-theorem recvFailed_no_wedge (c : Cfg) (s : St) (hr : InvR s) (hf : RecvFailed s) : ChunkWedge c s = false := by
-  have hne : s.recv ≠ .space := by
-    intro he
-    rcases hf with h1 | h1
-    · rcases hr.tmo h1 with h2 | h2
-      · rw [he] at h2; cases h2
-      · rw [he] at h2; cases h2
-    · rw [he] at h1; cases h1
-  cases hcw : ChunkWedge c s with
-  | false => rfl
-  | true =>
-    exfalso
-    simp only [ChunkWedge, Bool.and_eq_true, beq_iff_eq] at hcw
-    exact hne hcw.1.1.1.1
-
 theorem effAt_full (sh : Sh) : effAt sh 100 = expectedEffects sh := by
   by_cases h1 : sh.willFlag = true <;> by_cases h2 : sh.clean = true <;> simp [effAt, expectedEffects, h1, h2]
 
@@ -293,17 +277,17 @@ theorem self_held_not_ended (c : Cfg) (hw : WF c) (s : St) (hi : Inv c s) (hq : 
     cases hpc : s.proc <;> rw [hpc] at hown <;> first | rfl | (simp [PPc.inOwnWrite] at hown)
   simp [Ended, hso, hto, hcl, hrecv, hproc]
 
-/-- **what a state in which nothing can run looks like, with the repaired receiver**: the teardown
-is complete, or the processor is inside a delivery to ANOTHER connection that is still open, has
-stopped reading and is full, or the state is the F3 wedge, or the connection has not ended -/
+/-- **what a state in which nothing can run looks like, with the repaired receiver (b77088f) and
+the repaired `ReadFrom` (8f682d1)**: the teardown is complete, or the processor is inside a delivery
+to ANOTHER connection that is still open, has stopped reading and is full, or the connection has not
+ended -/
 theorem quiescent_cases_fixed (c : Cfg) (hw : WF c) (s : St) (hi : Inv c s) (hq : ∀ t, en c s t = false) :
-    Final s = true ∨ HeldByThird s = true ∨ ChunkWedge c s = true ∨ Ended s = false := by
-  rcases quiescent_cases c hw s hi.a hi.w hi.k hq with h | h | h | h | h
+    Final s = true ∨ HeldByThird s = true ∨ Ended s = false := by
+  rcases quiescent_cases c hw s hi.a hi.w hi.k hq with h | h | h | h
   · exact Or.inl h
   · exact Or.inr (Or.inl h)
-  · exact Or.inr (Or.inr (Or.inr (self_held_not_ended c hw s hi hq h)))
-  · exact Or.inr (Or.inr (Or.inl h))
-  · exact Or.inr (Or.inr (Or.inr h))
+  · exact Or.inr (Or.inr (self_held_not_ended c hw s hi hq h))
+  · exact Or.inr (Or.inr h)
 
 /-- **after `stop()` has been called (CAS passed) a state in which nothing can run is the complete
 teardown**, unless the processor is inside a delivery to another connection that is still open,
@@ -311,11 +295,9 @@ not reading and full -/
 theorem quiescent_closed (c : Cfg) (hw : WF c) (s : St) (hi : Inv c s) (hq : ∀ t, en c s t = false)
     (hc : s.sh.closed = true) (hx : s.sh.extBlocked = false) :
     Final s = true ∧ TornDown s = true := by
-  obtain ⟨_, h4, _⟩ := winner_closed_all c hw s hi hq hc
-  rcases quiescent_cases_fixed c hw s hi hq with hf | h | h | h
+  rcases quiescent_cases_fixed c hw s hi hq with hf | h | h
   · exact ⟨hf, (final_torn c s hi hf hc).1⟩
   · simp [HeldByThird, hx] at h
-  · simp [ChunkWedge, h4] at h
   · simp [Ended, hc] at h
 
 /-- no writer has panicked (and `stop()` does not clear the ring pointers: `InvK.nil`) -/
@@ -551,6 +533,6 @@ theorem silent_stuck (c : Cfg) (s : St) (hq : quiescent c s = true) (hk : estep 
 16-byte ring, 8-byte blocks -/
 def c0 : Cfg := { cap := 16, rblock := 8, wblock := 8 }
 
-theorem c0_wf : WF c0 := ⟨rfl, rfl, rfl, by decide, by decide, by decide⟩
+theorem c0_wf : WF c0 := ⟨rfl, rfl, rfl, rfl, by decide, by decide, by decide⟩
 
 end Mqtt.Proofs.Lifecycle
